@@ -55,6 +55,13 @@ CLAIMED.update({
 })
 CLAIMED["C12"] = dict(text="Glue obligations only: dataflow facts on the ASTs of incidence_matrix (index maps number the iterated ids 0..n-1, the returned maps invert them, every (node, edge) membership appends exactly node_dict[node] / edge_dict[edge] / weight(node, edge, H) to rows / cols / data, sparse and dense assembly use (data, (rows, cols)) with shape (num_nodes, num_edges), maps are returned in (node, edge) order) and of adjacency_matrix (I.dot(I.T), diagonal cleared in both branches, thresholding by s). A wrong flow is refuted; a rewritten shape is undecided unless the oracle shows misbehaviour. Every numeric statement of the property (entries of all matrices, symmetry, row sums, PSD, sparse/dense agreement) is bounded (brute-force construction from members() on exhaustive small hypergraphs x option grid)." + PARTIAL + THIN,
              ref="11.10", technique="contract-based glue obligations (dataflow on the AST of the only Python-level matrix code) modulo assumed contracts of numpy/scipy; bounded native oracle for every matrix", category="other")
+
+# fourth session: additions to the level texts (DESIGN 11.12)
+CLAIMED["C06"]["text"] += (" Also deductive (DESIGN 11.12): the view accessors on an unfiltered view - __len__/__contains__/__getitem__, neighbors (s = 1 and s > 1), memberships / members, the directed "
+                           "dimemberships / dimembers / head / tail / members, lookup, isolates, singletons, empty (the last four modulo the assumed from_view / filterby-by-name models) - and the handshake identity as a Lean lemma over UInv / DInv.")
+CLAIMED["C05"]["text"] += (" The attribute setters of both classes carry their documented effect as a postcondition with loop invariants (DESIGN 11.12). merge_duplicate_edges' rename / merge rules are covered by a bounded native oracle "
+                           "(transcription of the docstring), labelled bounded.")
+CLAIMED["C03"]["text"] += (" A bounded native oracle (short histories over all five bulk formats, labelled bounded, DESIGN 11.12) stands beside the proof for inputs whose obligations are refuted only under abstraction.")
 NA_REASON = {
  "C20": "no contract within reach: the observables are matplotlib collections and networkx float layouts (external libraries, floating point); see DESIGN 7",
 }
